@@ -27,6 +27,25 @@ theorem runOps_cap0 (ops : List SOp) : (Sline.init 0).runOps ops = Sline.init 0 
     rw [List.foldl_cons, apply_cap0 o]
     exact ih
 
+/-! ### `sline_newdata` at the C widths -/
+
+theorem availC_small (s : Sline) (hl : s.len ≤ s.cap) (hc : s.cap < 2147483648) :
+    s.availC = (s.cap : Int) - (s.len : Int) := by
+  unfold Sline.availC toInt32
+  have h1 : s.len % 4294967296 = s.len := Nat.mod_eq_of_lt (by omega)
+  have h2 : (s.cap + 4294967296 - s.len) % 4294967296 = s.cap - s.len := by
+    have : s.cap + 4294967296 - s.len = (s.cap - s.len) + 4294967296 := by omega
+    rw [this, Nat.add_mod_right, Nat.mod_eq_of_lt (by omega)]
+  rw [h1, h2, if_pos (by omega)]
+  omega
+
+theorem newdataC_eq (s : Sline) (hl : s.len ≤ s.cap) (hc : s.cap < 2147483648) (d : List Byte) (n : Int) :
+    s.newdataC d n = s.newdataI d n := by
+  unfold Sline.newdataC Sline.newdataI
+  rw [availC_small s hl hc]
+  have : decide ((s.cap : Int) - (s.len : Int) = -2147483648) = false := by simp; omega
+  simp [this]
+
 /-! ### the `int16_t` parameter -/
 
 theorem sextChar_ne (b : Byte) (hb : b ≠ 0xFF) : sextChar b ≠ -1 := by
